@@ -239,7 +239,11 @@ def collect(
         )
     )
     new._cache.derived_from = table._cache.derived_from | {new._ast}
-    new._cache.partition_by = [preprocess_arg(col, new) for col in table._cache.partition_by]
+    if table._cache.partition_by:
+        # the grouping state also lives in the AST (the backends read it from there)
+        if any(uid not in new._cache.cols for uid in table._cache.partition_by):
+            raise ValueError("cannot collect a table that is grouped by a hidden column")
+        new = new >> group_by(*(new._cache.cols[uid] for uid in table._cache.partition_by))
 
     return new
 
